@@ -11,6 +11,7 @@ import Juniper.Driver.C16
 import Juniper.Driver.C18
 import Juniper.Driver.C17
 import Juniper.Driver.C20
+import Juniper.Driver.Tree
 /-! `driver <model>`: runs one executable model behind the line protocol. Core-only (no Mathlib).
 Registration: one `import` line above and one `[("name", handler)],` line below per model
 (this file is merged with git's union driver, so keep one entry per line). -/
@@ -29,6 +30,7 @@ def handlers : List (String × Handler) := List.flatten [
   [("tmap", Juniper.Driver.C18.mapHandler), ("watch", Juniper.Driver.C18.watchHandler), ("future", Juniper.Driver.C18.futHandler), ("lazy", Juniper.Driver.C18.lazyHandler)],
   [("group", Juniper.Driver.C17.handler)],
   [("xtime", Juniper.Driver.C20.handler)],
+  [("tree", Juniper.Driver.Tree.handler)],
   []]
 
 def main (args : List String) : IO UInt32 := do
